@@ -20,6 +20,48 @@ let n = nat_of_int
 let ranges_identical (orc : oracles) os oe ns ne : bool =
   oe - os = ne - ns && seg_eq orc.o_on (n os) (n ns) (n (max 0 (oe - os)))
 
+(* C15: items occurring exactly once in old[os..oe) and exactly once in new[ns..ne):
+   the number of them reported Equal with their counterpart must reach the
+   longest in-order common subsequence of them (computed by the extracted lcs_len) *)
+let anchors_ok (s : seqs) os oe ns ne (ops : op list) : bool =
+  let cnt a lo hi v = let c = ref 0 in for k = lo to hi - 1 do if a.(k - 0) = v then incr c done; !c in
+  let oldv k = s.olda.(k - s.ko) and newv k = s.newa.(k - s.kn) in
+  let occ_old v = let c = ref 0 in for k = os to oe - 1 do if oldv k = v then incr c done; !c in
+  let occ_new v = let c = ref 0 in for k = ns to ne - 1 do if newv k = v then incr c done; !c in
+  ignore cnt;
+  let cuo = List.filter (fun k -> occ_old (oldv k) = 1 && occ_new (oldv k) = 1) (List.init (max 0 (oe - os)) (fun t -> os + t)) in
+  let cun = List.filter (fun k -> occ_new (newv k) = 1 && occ_old (newv k) = 1) (List.init (max 0 (ne - ns)) (fun t -> ns + t)) in
+  let ao = Array.of_list cuo and an = Array.of_list cun in
+  let cmp a b =
+    let a = int_of_nat a and b = int_of_nat b in
+    if a < Array.length ao && b < Array.length an then Ok (oldv ao.(a) = newv an.(b)) else Panic
+  in
+  let best = int_of_nat (lcs_len cmp O (n (Array.length ao)) O (n (Array.length an))) in
+  (* pairs matched by Equal ops *)
+  let matched = Hashtbl.create 64 in
+  List.iter (function Equal (o, nn, l) -> for t = 0 to int_of_nat l - 1 do Hashtbl.replace matched (int_of_nat o + t, int_of_nat nn + t) () done | _ -> ()) ops;
+  let kept =
+    List.length
+      (List.filter
+         (fun k ->
+           let v = oldv k in
+           let j = List.find (fun j -> newv j = v) cun in
+           Hashtbl.mem matched (k, j))
+         cuo)
+  in
+  kept >= best
+
+(* C19: comparisons <= WORK_C * (N + M + 1) * (D + 1), D = size of the reported script *)
+let work_c = 6
+
+let work_ok (ops : op list) os oe ns ne (cmps : int) : bool =
+  let d = int_of_nat (deleted ops) + int_of_nat (inserted ops) in
+  cmps <= work_c * (max 0 (oe - os) + max 0 (ne - ns) + 1) * (d + 1)
+
+(* the quadratic optimum (lcs_len on unary numbers) is only evaluated on boxes
+   of at most 100 000 cells; larger cases are covered by the other clauses *)
+let small_box os oe ns ne = max 0 (oe - os) * max 0 (ne - ns) <= 100_000
+
 let clauses_raw h (impl : string) : (string * bool) list =
   let s = parse_seqs h in
   let orc = oracles_of s in
@@ -47,8 +89,12 @@ let clauses_raw h (impl : string) : (string * bool) list =
             base
             @ [ ("raw_valid", check_raw orc.o_on (n os) (n oe) (n ns) (n ne) cs);
                 ("finish_last", check_finish_last cs) ]
-            @ (if dlo = None && (alg = "M" || alg = "L") then
+            @ (if dlo = None && (alg = "M" || alg = "L") && small_box os oe ns ne then
                  [ ("minimal", check_minimal orc.o_on (n os) (n oe) (n ns) (n ne) ops) ]
+               else [])
+            @ (if dlo = None && alg = "P" && small_box os oe ns ne then [ ("anchors_max", anchors_ok s os oe ns ne ops) ] else [])
+            @ (if dlo = None && stack = "none" && (alg = "M" || alg = "P") then
+                 [ ("work_bound", work_ok ops os oe ns ne (int_of_string (get ih "cmps"))) ]
                else [])
             @ (match dlo with
                | Some _ when stack = "none" ->
@@ -99,6 +145,7 @@ let clauses_capture h (impl : string) : (string * bool) list =
       ("ops_loose", check_ops_loose orc.o_on (n os) (n oe) (n ns) (n ne) ops);
       ("ops_exact", check_ops_exact orc.o_on (n os) (n oe) (n ns) (n ne) ops);
       ("normal", check_normal orc.o_on ops);
+      ("anchors_max", dlo <> None || alg <> "P" || not (small_box os oe ns ne) || anchors_ok s os oe ns ne ops);
       ("ratio_range", r >= 0.0 && r <= 1.0 && (r = 1.0) = ident);
       ( "identical_only_equal",
         (not ident) || ops = if len = 0 then [] else [ Equal (n os, n ns, n len) ] ) ]
@@ -116,7 +163,7 @@ let clauses_capture h (impl : string) : (string * bool) list =
            [ ("deadline_plumbed", (not must_probe) || int_of_string (get ih "probes") > 0) ]
        | _ -> [])
     @
-    if dlo = None && (alg = "M" || alg = "L") then
+    if dlo = None && (alg = "M" || alg = "L") && small_box os oe ns ne then
       let l = int_of_nat (lcs_len orc.o_on (n os) (n oe) (n ns) (n ne)) in
       let tot = max 0 (oe - os) + max 0 (ne - ns) in
       [ ("minimal", check_minimal orc.o_on (n os) (n oe) (n ns) (n ne) ops);
